@@ -77,6 +77,9 @@ var paramPointer = regexp.MustCompile(`/parameters/(\d+)/schema[:/]`)
 
 // goTypeAt resolves the JSON pointer an issue starts with to the Go type of the struct field or (in a one-method project) of the
 // documented parameter it describes; "" when it cannot be resolved.
+var declaredEnumTypesDiff = regexp.MustCompile(`^doc\.components\.\w+\.enumTypes`)
+var ruleEnumTypesDiff = regexp.MustCompile(`doc\.components\.(\w+)\.properties\.(\w+)\.enumTypes`)
+
 func goTypeAt(pc *pCase, issue string) string {
 	if m := propPointer.FindStringSubmatch(issue); m != nil {
 		for _, t := range pc.Types {
@@ -604,8 +607,17 @@ func judgeCase(rec *caseRecord, sum *jSummary) {
 			switch {
 			case strings.Contains(dline, ".responses.default"):
 				class = "known:default-response-3.0-only"
-			case strings.Contains(dline, ".enumTypes"):
+			case declaredEnumTypesDiff.MatchString(dline):
+				// a DECLARED non-string enum (component of kind enum): values are strings in 3.0, numbers in 3.1
 				class = "known:enum-values-as-strings-3.0"
+			case strings.Contains(dline, ".enumTypes"):
+				// an 'enum=' / 'oneof=' RULE: both emitters type the values by the schema's type, except that the 3.1 emitter leaves them
+				// untagged (so numeric text becomes a number) on a string schema that carries a format (time.Time, []byte)
+				if m := ruleEnumTypesDiff.FindStringSubmatch(dline); m != nil {
+					if gt := goTypeAt(pc, "#/components/schemas/"+m[1]+"/properties/"+m[2]+":"); gt == "time.Time" || gt == "[]byte" {
+						class = "known:enum-rule-untyped-3.1-on-formatted-string"
+					}
+				}
 			}
 			sum.Findings = append(sum.Findings, jFinding{ID: rec.ID, Prop: "C11", Class: class, What: fmt.Sprintf("the %s and %s documents differ at %s", main.Spec.Version, alt.Spec.Version, dline)})
 		}
